@@ -270,6 +270,8 @@ func hostMain() {
 		c32Host()
 	case "c35":
 		c35Host()
+	case "c30":
+		c30Host()
 	case "c29":
 		c29Host()
 	default:
